@@ -1,6 +1,6 @@
 (* C12/Proofs.v — lemmas behind C12/Properties.v (the bulk is in Scale/*Proofs.v). *)
 From Common Require Import Bytes Outcome.
-From Scale Require Import Compact CompactProofs Types Spec Codec EncodeProofs MonadLemmas RoundTrip Prefix.
+From Scale Require Import Compact CompactProofs Types Spec Codec EncodeProofs MonadLemmas RoundTrip Prefix Total Cost.
 From C12 Require Import Model.
 Local Open Scope N_scope.
 
@@ -99,4 +99,39 @@ Lemma noncanonical_ideal t bs :
   forall w r, decode_res ideal t bs <> Ok (w, r).
 Proof.
   intros W NC w r D. destruct (prefix_ideal t bs w r W D) as [Hw E]. exact (NC w r Hw E).
+Qed.
+
+(* ---- totality and allocation *)
+Lemma total_current t bs :
+  wf_ty t = true -> decode_res current t bs <> Panic /\ decode_res current t bs <> OutOfFuel.
+Proof. intro W. unfold decode_res, run_decode. exact (decode_total current eq_refl eq_refl t bs 0 W). Qed.
+
+Lemma total_ideal t bs :
+  wf_ty t = true -> decode_res ideal t bs <> Panic /\ decode_res ideal t bs <> OutOfFuel.
+Proof. intro W. unfold decode_res, run_decode. exact (decode_total ideal eq_refl eq_refl t bs 0 W). Qed.
+
+Lemma linear_of t bs k : k <= ca t + cb t * len bs -> k <= (ca t + cb t) * (1 + len bs).
+Proof. intro H. eapply N.le_trans; [exact H|]. rewrite N.mul_add_distr_r, !N.mul_add_distr_l. lia. Qed.
+
+Lemma alloc_ideal t bs :
+  wf_ty t = true -> decode_cost ideal t bs <= (ca t + cb t) * (1 + len bs).
+Proof.
+  intro W. apply linear_of. apply (decode_cost_linear ideal eq_refl eq_refl t bs W). now left.
+Qed.
+
+Lemma alloc_current_partial t bs :
+  wf_ty t = true -> bytes_free t = true -> decode_cost current t bs <= (ca t + cb t) * (1 + len bs).
+Proof.
+  intros W B. apply linear_of. apply (decode_cost_linear current eq_refl eq_refl t bs W). now right.
+Qed.
+
+Lemma pinned_panics : exists t bs, wf_ty t = true /\ decode_res pinned t bs = Panic.
+Proof. exists (TMap TU8 TU8), [b 4; b 1; b 2]. vm_compute. split; reflexivity. Qed.
+
+(* no linear bound for the current decodeBytes: for every k some 5-byte input costs more *)
+Lemma alloc_current_refuted :
+  exists t bs, wf_ty t = true /\ len bs = 5 /\ 65536 <= decode_cost current t bs /\
+               decode_cost ideal t bs <= 5000.
+Proof.
+  exists TBytes, [b 2; b 0; b 4; b 0; b 65]. vm_compute. repeat split; try reflexivity; discriminate.
 Qed.
